@@ -817,4 +817,85 @@ theorem foldl_last (P : Nat → Bool) : ∀ m : Nat,
       have : k ≠ m := fun h => hp (h ▸ hpk)
       exact ih.1 k (by omega) hpk
 
+/-! ### low-link DFS: what is reported is a node / an edge -/
+
+theorem foldl_pres {σ β} (P : σ → Prop) (f : σ → β → σ) (l : List β)
+    (h : ∀ s w, w ∈ l → P s → P (f s w)) (s : σ) (hs : P s) : P (l.foldl f s) := by
+  induction l generalizing s with
+  | nil => exact hs
+  | cons a l ih =>
+    rw [List.foldl_cons]
+    exact ih (fun s w hw => h s w (List.mem_cons_of_mem _ hw)) _ (h s a List.mem_cons_self hs)
+
+/-- everything in `ap` is a node, everything in `bridge_list` is an edge `(a, b)` with `a < b` -/
+def DOk (G : Graph) (st : DSt) : Prop :=
+  (∀ x ∈ st.ap, x ∈ G.nodes) ∧ (∀ e ∈ st.br, e.1 < e.2 ∧ e.2 ∈ G.sadj e.1)
+
+theorem DOk_noteAp (G : Graph) (st : DSt) (c : Bool) (v : Nat) (hv : v ∈ G.nodes) (h : DOk G st) :
+    DOk G (noteAp st c v) := by
+  unfold noteAp
+  split
+  · refine ⟨?_, h.2⟩
+    intro x hx
+    rcases mem_addSet.1 hx with hx | rfl
+    · exact h.1 x hx
+    · exact hv
+  · exact h
+
+theorem DOk_noteBr (G : Graph) (st : DSt) (c : Bool) (e : Nat × Nat) (h : DOk G st)
+    (he : e.1 < e.2 ∧ e.2 ∈ G.sadj e.1) : DOk G (noteBr st c e) := by
+  unfold noteBr
+  split
+  · refine ⟨h.1, ?_⟩
+    intro x hx
+    rcases List.mem_append.1 hx with hx | hx
+    · exact h.2 x hx
+    · simp only [List.mem_singleton] at hx
+      subst hx; exact he
+  · exact h
+
+theorem dfs_ok (G : Graph) : ∀ (fuel v : Nat) (st : DSt), v ∈ G.nodes → DOk G st →
+    DOk G (dfs G.sadj fuel v st) := by
+  intro fuel
+  induction fuel with
+  | zero => intro v st _ h; exact h
+  | succ f ih =>
+    intro v st hv h
+    unfold dfs
+    simp only
+    refine foldl_pres (fun (acc : DSt × Nat) => DOk G acc.1) _ (G.sadj v) ?_ _ h
+    intro acc w hw hacc
+    have hwn : w ∈ G.nodes := sadj_sub G hw
+    have hvw : v ≠ w := ((mem_sadj G v w).1 hw).1
+    have hsym : v ∈ G.sadj w := by
+      rw [mem_sadj]; exact ⟨fun e => hvw e.symm, ((mem_sadj G v w).1 hw).2.symm⟩
+    split
+    · have h1 : DOk G (dfs G.sadj f w { acc.1 with parent := aset acc.1.parent w (some v) }) :=
+        ih w _ hwn hacc
+      apply DOk_noteBr
+      · apply DOk_noteAp _ _ _ _ hv
+        exact h1
+      · split
+        · rename_i hlt; exact ⟨hlt, hw⟩
+        · rename_i hlt; exact ⟨by omega, hsym⟩
+    · split
+      · exact hacc
+      · exact hacc
+
+theorem lowlink_ok (G : Graph) :
+    (∀ x ∈ (lowlink G).1, x ∈ G.nodes) ∧ (∀ e ∈ (lowlink G).2, e.1 < e.2 ∧ e.2 ∈ G.sadj e.1) := by
+  unfold lowlink
+  split
+  · simp
+  · simp only
+    have : DOk G (G.nodes.foldl (fun (st : DSt) v =>
+        if hasKey st.disc v then st
+        else dfs G.sadj (G.nodes.length + 1) v { st with parent := aset st.parent v none }) {}) := by
+      refine foldl_pres (DOk G) _ G.nodes ?_ _ ⟨by simp, by simp⟩
+      intro s v hv hs
+      split
+      · exact hs
+      · exact dfs_ok G _ v _ hv hs
+    exact this
+
 end Solvor.Net
